@@ -56,6 +56,7 @@ pub struct Shard {
     pub inconclusive: u64,
     pub replay_dir: String,
     pub max_fps: usize,
+    pub replay_args: Vec<String>,
 }
 
 impl Shard {
@@ -73,6 +74,7 @@ impl Shard {
             inconclusive: 0,
             replay_dir: replay_dir.to_string(),
             max_fps: 200_000,
+            replay_args: Vec::new(),
         }
     }
 
@@ -117,7 +119,7 @@ impl Shard {
             let path = format!("{}/{}-{}-{}.json", self.replay_dir, v.prop, self.engine, seed);
             let body = json!({
                 "property": v.prop, "rule": v.rule, "detail": v.detail, "engine": self.engine,
-                "seed": seed, "scenario": scenario(), "notes": notes, "trace_tail": trace_tail,
+                "seed": seed, "scenario": scenario(), "notes": notes, "trace_tail": trace_tail, "replay_args": self.replay_args,
                 "replay_cmd": format!("./check {} --replay {}", v.prop, path),
             });
             let _ = std::fs::create_dir_all(&self.replay_dir);
